@@ -561,8 +561,21 @@ def control_rules(ck, c, rc, rtab):
             unsigned = ("cast", "u32") in rc.origins(rc.term(skips[0][0])["args"][1], deep=True)
             lf = rules.lin(rc, skips[0][1]["args"][1])
             exact = lf is not None and lf[1] == stride and sorted(lf[0].values()) == [stride]
-            ok = len(lt) == 1 and exact and unsigned
+            # the comparison itself is made at 32 bits: the selector is the operand reinterpreted as u32 (no narrower cast
+            # on the way), the label count is widened to u32
+            wide = False
+            for cx in rules.comparisons(rc):
+                if cx["bb"] in reg and cx["op"] == "Lt" and cx["kind"] == "bin":
+                    pa, pb = op_place(cx["a"]), op_place(cx["b"])
+                    ta = rc.locals[pa[0]] if pa else None
+                    tb_ = rc.locals[pb[0]] if pb else None
+                    casts = set(x[1] for x in rc.origins(cx["a"], deep=False) if x[0] == "cast")
+                    if ta == "u32" and tb_ == "u32" and casts <= {"u32"} and ("field", "short") in rc.origins(cx["a"], deep=False):
+                        wide = True
+            ok = len(lt) == 1 and exact and unsigned and wide
             det = "index < number of labels (unsigned) selects entry (index + 1) * %d bytes further; otherwise the first (default) entry; found comparisons %s" % (stride, [(x[0], x[1]) for x in cs])
+            if not wide:
+                det = "the table index is not compared with the number of labels as an unsigned 32-bit value (a narrower comparison lets indices >= 2^16 select a table entry instead of the default); " + det
         nn_ += 1
         ck.ob("TAB", "interpreter:" + n, "table-selection", ok, det, rc.loc(tb))
     a = arm("Select")
